@@ -42,7 +42,7 @@ type C16Case struct {
 var (
 	c16RPCs    = []string{"form", "renew", "refresh-full", "refresh-partial"}
 	c16Bases   = []string{"same", "behind", "stale", "stale-unapplied", "unknown"}
-	c16Invalid = []string{"zero-allowance", "collateral-over-max", "allowance-below-min", "proof-too-soon"}
+	c16Invalid = []string{"zero-allowance", "collateral-over-max", "allowance-below-min", "proof-too-soon", "host-underfunded", "renter-underfunded"}
 )
 
 func exchangeOf(rpc string) string {
@@ -193,6 +193,10 @@ func newC16World(c C16Case) (w *c16World, err error) {
 	// so the host exists before the first block
 	w.hw = &rhpc.RecWallet{Wallet: w.H.W}
 	w.settled = rhpc.DefaultSettings(w.H.Addr())
+	if c.Invalid == "host-underfunded" {
+		// the host accepts a collateral it cannot fund
+		w.settled.MaxCollateral = types.Siacoins(4000000)
+	}
 	w.host = rhpc.NewRealHost(c16HostID, w.H.CM, w.hw, w.settled)
 	w.signer = &rhpc.FundAndSign{W: w.R.W, PK: c16ContractKey}
 	cs := w.H.CM.TipState()
@@ -378,6 +382,13 @@ func (w *c16World) params(c C16Case) (allowance, collateral types.Currency, proo
 		collateral = types.Siacoins(80)
 	case "proof-too-soon":
 		proof = tip + 3
+	case "host-underfunded":
+		// more than the host's three block rewards, justified by the allowance
+		collateral = types.Siacoins(1200000)
+		allowance = types.Siacoins(700000)
+	case "renter-underfunded":
+		allowance = types.Siacoins(3000000)
+		collateral = types.ZeroCurrency
 	}
 	return
 }
@@ -654,6 +665,9 @@ func runC16(c C16Case, cs *kit.CaseStats) error {
 			}
 			if hostFunded && c.Basis != "same" {
 				cs.Class("success-with-rebased-inputs")
+				if c.Unconf {
+					cs.Class("success-with-rebased-unconfirmed-inputs")
+				}
 			}
 			return nil
 
